@@ -1,16 +1,16 @@
-\* leg B generator: every complete schedule of start / cancel / late answer steps (all replies truncated)
+\* leg B generator (simulation): 4 overlapping truncated exchanges -> 4 pooled connections, all answered, the server closes all 4, the client notices, a 5th exchange
 SPECIFICATION Spec
 CONSTANTS
-  N = 3
-  MaxConn = 3
+  N = 5
+  MaxConn = 5
   MaxResend = 0
-  MaxTries = 2
+  MaxTries = 4
   MaxDup = 1
   TcChoices = {TRUE}
   Overlap = FALSE
-  Burst = 0
-  EnvCancel = TRUE
-  EnvClose = FALSE
+  Burst = 4
+  EnvCancel = FALSE
+  EnvClose = TRUE
   EnvDup = FALSE
   Matching = FALSE
   ReuseBusy = FALSE
